@@ -165,6 +165,10 @@ def gen_reply(rng):
     enc = 'latin-1' if rng.random() < 0.25 else 'utf-8'
     hi = ['caf\xe9', '\xff\xfe', 'Willkommen bei \xfcber', '\x80'] if enc == 'latin-1' else []
     words = words + hi
+    if enc == 'utf-8':
+        # characters that end a line for str.splitlines() but not on the wire, and non-ASCII digits
+        words = words + ['Welcome\x0c220 to the archive', 'a\x0bb', 'x\x1cy\x1dz\x1e', 'caf\u0085 next', 'line\u2028sep\u2029',
+                         '\uff12\uff12\uff10 fullwidth']
     if kind == 'single':
         text = [rng.choice(words)]
         wire = ('%d %s\r\n' % (code, text[0])).encode(enc)
@@ -326,6 +330,8 @@ def check_completion(case, part):
     from wpull.errors import NetworkError, ProtocolError, ServerError
     script = ftpsim.FTPScript()
     script.ending = case['ending']
+    if case.get('error_reply'):
+        script.error_final_reply = (case['error_reply'] + '\r\n').encode()
     script.data = case['data']
     seg = case['segmentation']
     if seg == 'bytes':
@@ -337,7 +343,8 @@ def check_completion(case, part):
     part.count('transfer_endings_' + case['ending'])
     replay = case
     events = res['control'].events
-    part.nontrivial_case('completion/{}/{}/{}'.format(case['ending'], seg, len(case['data'])))
+    part.nontrivial_case('completion/{}/{}/{}/{}'.format(case['ending'], seg, len(case['data']),
+                                                         (case.get('error_reply') or '')[:3] if case['ending'] == 'error_final' else ''))
     returned = 'download-returned' in events
     if case['ending'] in ('eof_first', 'reply_first'):
         if res['error'] is not None:
@@ -355,6 +362,9 @@ def check_completion(case, part):
             part.violation('download-returned-normally-without-confirmation/' + case['ending'], {'events': events}, replay)
         elif res['error'] == 'STALL' and case['ending'] == 'no_eof':
             part.count('transfer_without_eof_keeps_waiting')
+        elif res['error'] == 'STALL' and case['ending'] == 'error_final' and case.get('error_reply') in ('226', '2260 x'):
+            # not a complete reply yet (no "code space" line): the client rightly keeps reading
+            part.count('transfer_with_incomplete_closing_reply_keeps_waiting')
         elif res['error'] in (None, 'STALL'):
             part.violation('unconfirmed-transfer-outcome/' + case['ending'], {'error': res['error'], 'events': events}, replay)
         elif not isinstance(res.get('error_obj'), (NetworkError, ProtocolError, ServerError)):
@@ -389,7 +399,12 @@ def worker(job):
     for n in range(job['n_reply']):
         check_reply(gen_reply(rng), part, rng)
     for n in range(job['n_completion']):
-        case = {'ending': rng.choice(['eof_first', 'reply_first', 'missing_final', 'error_final', 'no_eof', 'partial_final']),
+        # (the reply after the data connection closed: only 226 confirms the transfer; other replies - also positive ones
+        # such as 225 'no transfer in progress', 221 'goodbye', 200, 211 - do not)
+        case = {'ending': rng.choice(['eof_first', 'reply_first', 'missing_final', 'error_final', 'error_final', 'no_eof', 'partial_final']),
+                'error_reply': rng.choice(['451 aborted', '426 Connection closed; transfer aborted', '550 failed', '225 no transfer in progress',
+                                           '221 Goodbye', '200 ok', '211 status', '125 starting', '150 again', '332 need account',
+                                           '226', '2260 x']),
                 'data': [bytes(rng.randrange(256) for _ in range(rng.randrange(0, 40))) for _ in range(rng.randrange(0, 4))],
                 'segmentation': rng.choice(['whole', 'bytes', 'halves'])}
         check_completion(case, part)
